@@ -78,3 +78,85 @@ package storage
 //@   ensures [rounds-kept] err == nil ==> forall h crypto.Hash :: {SHasRound(StoreVer(recv), h)} h != node ==>
 //@       SHasRound(StoreVer(recv), h) == old(SHasRound(StoreVer(recv), h)) && SRoundNodeId(StoreVer(recv), h) == old(SRoundNodeId(StoreVer(recv), h)) &&
 //@       SRoundNumber(StoreVer(recv), h) == old(SRoundNumber(StoreVer(recv), h))
+
+//@ -- ════════════════════════ PART 2: the BadgerStore implementation over T-KV ════════════════════════
+//@ -- Key space (extends storage/zz_contracts_c03_verif.go): "ROUND" + 32 bytes and "LINK" + Blake3(from | to). The prefixes
+//@ -- start with R and L, different from U G D M T F of the kinds 1..6, and both payloads have the fixed width 32.
+//@ -- RoundKeyId is invertible (keyhid). LinkKeyId is NOT assumed injective in (from, to): that would be collision
+//@ -- freeness of Blake3; no clause below needs it.
+//@ uninterp RoundKeyId(h mathint) mathint
+//@ uninterp LinkKeyId(f mathint, t mathint) mathint
+//@ axiom forall h mathint :: {RoundKeyId(h)} keykind(RoundKeyId(h)) == 7 && keyhid(RoundKeyId(h)) == h
+//@ axiom forall f, t mathint :: {LinkKeyId(f, t)} keykind(LinkKeyId(f, t)) == 8
+//@ spec RK(h crypto.Hash) mathint = RoundKeyId(kvval(h))
+//@ spec LK(f crypto.Hash, t crypto.Hash) mathint = LinkKeyId(kvval(f), kvval(t))
+//@ assume func graphRoundKey
+//@   modifies nothing
+//@   ensures fresh(result) && kvkey(result) == RK(hash)
+//@ assume func graphLinkKey
+//@   modifies nothing
+//@   ensures fresh(result) && kvkey(result) == LK(from, to)
+
+//@ -- observations of a transaction view
+//@ spec LinkVal(t badger.Txn, f crypto.Hash, to crypto.Hash) mathint = badger.kvget(t, LK(f, to))
+//@ spec LinkOf(t badger.Txn, f crypto.Hash, to crypto.Hash) mathint = LinkVal(t, f, to) == 0 ? 0 : Be64Dec(LinkVal(t, f, to))
+//@ spec RoundVal(t badger.Txn, h crypto.Hash) mathint = badger.kvget(t, RK(h))
+//@ spec HasRound(t badger.Txn, h crypto.Hash) bool = RoundVal(t, h) != 0
+//@ -- store invariants used as preconditions: a LINK value has 8 bytes (writeLink is the only writer, [written] re-establishes it);
+//@ -- a stored ROUND record has a non-zero Hash (readRound panics otherwise; both writers below store the key as Hash)
+//@ spec LinkLenOK(t badger.Txn, f crypto.Hash, to crypto.Hash) bool = LinkVal(t, f, to) != 0 ==> badger.vallen(LinkVal(t, f, to)) == 8
+//@ spec RoundHashed(t badger.Txn, h crypto.Hash) bool = HasRound(t, h) ==> common.RoundHashOf(RoundVal(t, h)).HasValue()
+
+//@ func readLink
+//@   property C20
+//@   requires txn != nil
+//@   requires [len8] LinkLenOK(*txn, from, to)
+//@   modifies nothing
+//@   ensures [link] err == nil ==> result0 == LinkOf(*txn, from, to)
+
+//@ func writeLink
+//@   property C20
+//@   requires txn != nil
+//@   modifies *txn
+//@   ensures [fail] err != nil ==> *txn == old(*txn)
+//@   ensures [written] err == nil ==> LinkVal(*txn, from, to) != 0 && LinkOf(*txn, from, to) == link && LinkLenOK(*txn, from, to)
+//@   ensures [frame] err == nil ==> forall k mathint :: {badger.kvget(*txn, k)} k != LK(from, to) ==> badger.kvget(*txn, k) == old(badger.kvget(*txn, k))
+
+//@ func readRound
+//@   property C20
+//@   requires txn != nil
+//@   requires [hashed] RoundHashed(*txn, hash)
+//@   modifies nothing
+//@   ensures [err] err != nil ==> result0 == nil
+//@   ensures [absent] err == nil && result0 == nil ==> !HasRound(*txn, hash)
+//@   ensures [found] result0 != nil ==> err == nil && fresh(result0) && (result0.References != nil ==> fresh(result0.References)) && HasRound(*txn, hash) && common.RoundDecodes(result0, RoundVal(*txn, hash))
+
+//@ func writeRound
+//@   property C20
+//@   requires txn != nil && round != nil
+//@   modifies *txn
+//@   ensures [fail] err != nil ==> *txn == old(*txn)
+//@   ensures [written] err == nil ==> HasRound(*txn, hash) && common.RoundDecodes(round, RoundVal(*txn, hash))
+//@   ensures [frame] err == nil ==> forall k mathint :: {badger.kvget(*txn, k)} k != RK(hash) ==> badger.kvget(*txn, k) == old(badger.kvget(*txn, k))
+
+//@ -- ExtV: the value id of the external round's record as the transaction sees it at entry
+//@ func startNewRound
+//@   property C20
+//@   requires txn != nil && references != nil
+//@   requires [rounds] number != 0 ==> HasRound(*txn, node) && HasRound(*txn, references.External) -- both records are dereferenced
+//@   requires [hashed] RoundHashed(*txn, node) && RoundHashed(*txn, references.External)
+//@   modifies *txn
+//@   ensures [link] err == nil && number != 0 ==> let x == old(RoundVal(*txn, references.External)) in
+//@       LinkVal(*txn, node, common.RoundNodeIdOf(x)) != 0 && LinkOf(*txn, node, common.RoundNodeIdOf(x)) == common.RoundNumberOf(x) &&
+//@       LinkLenOK(*txn, node, common.RoundNodeIdOf(x))
+//@   -- the closed round: the old head record, re-stored under its hash with Hash := references.Self, Timestamp := selfPreviousStart
+//@   ensures [self-rec] err == nil && number != 0 && references.Self != node ==> let o == old(RoundVal(*txn, node)) in let v == RoundVal(*txn, references.Self) in
+//@       v != 0 && common.RoundHashOf(v) == references.Self && common.RoundTimestampOf(v) == selfPreviousStart &&
+//@       common.RoundNodeIdOf(v) == common.RoundNodeIdOf(o) && common.RoundNumberOf(v) == common.RoundNumberOf(o) &&
+//@       (common.RoundHasRefs(v) <==> common.RoundHasRefs(o)) && (common.RoundHasRefs(o) ==> common.RoundSelfOf(v) == common.RoundSelfOf(o) && common.RoundExternalOf(v) == common.RoundExternalOf(o))
+//@   -- the new head record under the node id
+//@   ensures [head-rec] err == nil ==> let v == RoundVal(*txn, node) in v != 0 && common.RoundHashOf(v) == node && common.RoundNodeIdOf(v) == node &&
+//@       common.RoundNumberOf(v) == number && common.RoundTimestampOf(v) == 0 && common.RoundHasRefs(v) &&
+//@       common.RoundSelfOf(v) == references.Self && common.RoundExternalOf(v) == references.External
+//@   ensures [frame] err == nil ==> let x == old(RoundVal(*txn, references.External)) in forall k mathint :: {badger.kvget(*txn, k)}
+//@       k != RK(node) && (number == 0 || (k != RK(references.Self) && k != LK(node, common.RoundNodeIdOf(x)))) ==> badger.kvget(*txn, k) == old(badger.kvget(*txn, k))
